@@ -1,0 +1,29 @@
+//go:build verif
+
+// Copyright 2025 NVIDIA CORPORATION
+// SPDX-License-Identifier: Apache-2.0
+
+package controller
+
+import (
+	admissionv1 "k8s.io/api/admissionregistration/v1"
+	"k8s.io/apimachinery/pkg/runtime"
+	"sigs.k8s.io/controller-runtime/pkg/client"
+
+	"github.com/NVIDIA/KAI-scheduler/pkg/operator/controller/status_reconciler"
+	"github.com/NVIDIA/KAI-scheduler/pkg/operator/operands"
+	"github.com/NVIDIA/KAI-scheduler/pkg/operator/operands/known_types"
+)
+
+// NewConfigReconcilerForSim wires a ConfigReconciler the way SetupWithManager does, without a manager:
+// the simulator is the work queue and supplies the client (verification hook H8, build tag verif only).
+func NewConfigReconcilerForSim(c client.Client, scheme *runtime.Scheme, ops []operands.Operand) *ConfigReconciler {
+	r := &ConfigReconciler{Client: c, Scheme: scheme}
+	r.SetOperands(ops)
+	r.deployable.RegisterFieldsInheritFromClusterObjects(&admissionv1.ValidatingWebhookConfiguration{},
+		known_types.ValidatingWebhookConfigurationFieldInherit)
+	r.deployable.RegisterFieldsInheritFromClusterObjects(&admissionv1.MutatingWebhookConfiguration{},
+		known_types.MutatingWebhookConfigurationFieldInherit)
+	r.StatusReconciler = status_reconciler.New(r.Client, r.deployable)
+	return r
+}
